@@ -350,6 +350,10 @@ type memPipe struct {
 	waiting    [2]bool
 	idle       [2]bool
 	deadlocked bool
+	// seg[i] > 0: side i receives the stream cut into segments of that many bytes (a Read never crosses a segment
+	// boundary, as on a TCP connection), so short reads happen at every position of every message
+	seg [2]int
+	rd  [2]int // bytes side i has read so far
 }
 
 type memConn struct {
@@ -414,8 +418,14 @@ func (c *memConn) Read(b []byte) (int, error) {
 		p.cond.Wait()
 		p.waiting[me] = false
 	}
+	if s := p.seg[me]; s > 0 {
+		if room := s - p.rd[me]%s; len(b) > room {
+			b = b[:room]
+		}
+	}
 	n := copy(b, p.q[me])
 	p.q[me] = p.q[me][n:]
+	p.rd[me] += n
 	return n, nil
 }
 
